@@ -6,7 +6,7 @@ from hypothesis import strategies as st
 from .. import gens, model, printing, rfc, build
 from ..core import Prop, Violation
 from ..lib import flag_names
-from .c15 import utils_documents, UKEYS, HUGE
+from .c15 import utils_documents, UKEYS, HUGE, EDGE_NUMBERS, other_number
 
 OPNAMES = [b"add", b"remove", b"replace", b"test", b"copy", b"move"]
 
@@ -17,6 +17,7 @@ def S(b):
 
 def small_values():
     return st.one_of(st.just(["n"]), st.just(["t"]), st.just(["f"]), st.integers(-9, 9).map(lambda i: ["N", float(i) + 100.0]),
+                     st.sampled_from(EDGE_NUMBERS).map(lambda d: ["N", d]),
                      st.sampled_from([b"v", b"", b"a/b"]).map(S),
                      st.just(["A", []]), st.just(["O", []]),
                      st.just(["A", [["N", 201.0], ["S", b"x"]]]), st.just(["O", [[b"n", ["N", 202.0]], [b"a/b", ["t"]]]]))
@@ -100,7 +101,7 @@ def one_op(draw, cur):
         return ["O", [[b"op", S(b"move")], [b"from", S(ptr(p))], [b"path", S(add_target(exclude_under=p))]]], "move"
     # ---- failure classes of the statement
     bad = draw(st.sampled_from(["missing_member", "missing_index", "index_beyond", "dash_not_allowed", "test_fail", "no_op", "no_path", "no_value",
-                                "no_from", "op_wrong_type", "path_wrong_type", "from_wrong_type", "move_into_child", "wrong_case_key",
+                                "no_from", "test_fail", "test_fail", "op_wrong_type", "path_wrong_type", "from_wrong_type", "move_into_child", "wrong_case_key",
                                 "unknown_op", "through_scalar", "leading_zero_index", "wrong_case_op", "bad_index_syntax", "bad_index_syntax",
                                 "move_same_missing"]))
     p = paths[draw(st.integers(0, len(paths) - 1))]
@@ -179,6 +180,17 @@ def one_op(draw, cur):
     if bad == "test_fail":
         v = copy.deepcopy(rfc.node_at(cur, p))
         other = draw(small_values())
+        nums = [n for n in model.walk_jv(v) if n[0] == "N"]
+        extreme = [n for n in nums if n[1] != 0.0 and (abs(n[1]) < 1e-290 or abs(n[1]) > 1e290)]
+        if nums and (extreme or draw(st.booleans())):
+            # the expected value differs from the actual one in ONE number only, by a step of that number's own magnitude
+            import random as _random
+            rr = _random.Random(draw(st.integers(0, 2 ** 31)))
+            other = copy.deepcopy(v)
+            sites = [n for n in model.walk_jv(other) if n[0] == "N"]
+            ext = [n for n in sites if n[1] != 0.0 and (abs(n[1]) < 1e-290 or abs(n[1]) > 1e290)]
+            site = rr.choice(ext or sites)
+            site[1] = other_number(site[1], rr)
         if model.eq_set(v, other, True):
             other = ["S", b"certainly different"]
         return full(b"test", ptr(p), value=other), bad
